@@ -1559,6 +1559,10 @@ def compress_methods(cx):
             if not np.all(np.isfinite(x_out)):
                 return "non-finite output"
             mtol = _method_tol(method, dt)
+            if cutoff is None:
+                # the dispatcher's default cutoff (1e-10, relative squared weight) may discard up to ~1e-5 of the norm
+                # per bond even when the cap admits everything: "identity" then only holds to that accuracy
+                mtol = max(mtol, 1e-4)
             ref = x_in / nin if normalize else x_in
             if normalize:
                 nout = float(np.linalg.norm(x_out))
